@@ -5,7 +5,7 @@ Mechanical extractor + contract splicer.
 Reads /repo/src/*.rs (the current working tree) and produces ONE Verus crate file in which every source
 file appears verbatim inside `pub mod <m> { use vstd::prelude::*; verus!{ ... } }`, with the ghost text
 of /verif/contracts/*.vspec spliced in at anchors.  Executable text is never edited except by the fixed
-normalisation rules N1..N5 below; every application of a rule is logged into the extraction report.
+normalisation rules N1..N7 below; every application of a rule is logged into the extraction report.
 
 Sidecar syntax (contracts/<module>.vspec); every record is
     @<kind> <args...>
@@ -26,6 +26,8 @@ kinds
     @module                                             ghost items appended to the module
     @uses                                               `use` lines put at the top of the module
     @fields <Struct>                                    body = the struct's field names; any difference => contract-stale (exit 2)
+    @println <fn-path>                                  N6: println! statements of that fn become ghost records in `out__log`;
+                                                        body = ghost text placed where the fn is left (end of body, every `return`)
 fn-path:  name | Type::name | Trait::name  with optional impl="<substring of impl header>" to disambiguate.
 """
 import hashlib
@@ -364,6 +366,11 @@ def normalise(mod: str, src: str, log: list) -> str:
         edits.append((m.start(), m.end(), "let mut %s__it = %s.iter(); %slet %s = %s__it.%s(" % (name, recv, iff, pat, name, meth)))
         log.append({"rule": "N5", "file": "src/%s.rs" % mod, "line": lineno(m.start()),
                     "what": "`%slet %s = %s.iter().%s(..)` -> `let mut %s__it = %s.iter(); %slet %s = %s__it.%s(..)`" % (iff, pat, recv, meth, name, recv, iff, pat, name, meth)})
+    # N7  X.split_whitespace().collect()  ->  crate::stdspec::split_ws(X)   (an external_body function whose body is that expression)
+    for m in re.finditer(r"\b([a-z_][a-z0-9_]*)\.split_whitespace\(\)\.collect\(\)", masked):
+        edits.append((m.start(), m.end(), "crate::stdspec::split_ws(%s)" % m.group(1)))
+        log.append({"rule": "N7", "file": "src/%s.rs" % mod, "line": lineno(m.start()),
+                    "what": "`%s.split_whitespace().collect()` -> `crate::stdspec::split_ws(%s)` (assumed: returns the uninterpreted token sequence ws_tokens)" % (m.group(1), m.group(1))})
     # D4 Debug derive on non-Copy structs
     for m in re.finditer(r"#\[derive\(Debug, Clone\)\]", masked):
         edits.append((m.start(), m.end(), "#[derive(Clone)]"))
@@ -632,6 +639,38 @@ def splice_module(mod: str, src: str, recs, report, havoc=(), variant="main"):
             pos = s if k == "before" else e
             edits.append((pos, pos, "\n" + ghost + "\n"))
             anchors.append({"kind": k, "anchor": "%s::%s@%r" % (mod, rec.args[0], needle), "origin": rec.origin})
+        elif k == "println":
+            # N6: in this function every `println!(LITERAL, args..);` statement becomes a ghost record of the line's format
+            # literal in a local ghost log (declared at the top of the body); the arguments are not evaluated in the
+            # verified text (output is not part of the state Verus sees; what is said about the arguments is asserted in
+            # front of the statement by @before records anchored on the statement's own text)
+            f = fn_of(rec)
+            edits.append((f.sig_end + 1, f.sig_end + 1, "\n        let ghost mut out__log: Seq<Seq<char>> = Seq::empty();\n"))
+            n_pr = 0
+            for pm in re.finditer(r"\bprintln!\s*\(", masked[f.sig_end:f.body_end]):
+                st = f.sig_end + pm.start()
+                op = f.sig_end + pm.end() - 1
+                cl = match_close(masked, op)
+                lm = re.match(r'\s*("(?:[^"\\]|\\.)*")', src[op + 1:cl])
+                if lm is None:
+                    raise ExtractError("anchor-lost println without a format literal in %s" % rec.args[0])
+                en = cl + 1
+                while masked[en].isspace():
+                    en += 1
+                if masked[en] != ";":
+                    raise ExtractError("anchor-lost println in expression position in %s" % rec.args[0])
+                edits.append((st, en + 1, "proof { out__log = out__log.push(%s@); }" % lm.group(1)))
+                n_pr += 1
+                report["normalisations"].append({"rule": "N6", "file": "src/%s.rs" % mod, "line": src.count("\n", 0, st) + 1,
+                                                 "what": "`println!(%s, ..);` -> ghost record of the format literal in out__log (arguments not evaluated)" % lm.group(1)})
+            # the record's body (what the function must have written when it is left) goes in front of the closing brace of
+            # the body and in front of every `return`
+            if body.strip():
+                edits.append((f.body_end, f.body_end, "\n" + body + "\n"))
+                for rm in re.finditer(r"\breturn\b", masked[f.sig_end:f.body_end]):
+                    rs, _re = statement_bounds(masked, f, f.sig_end + rm.start())
+                    edits.append((rs, rs, "\n" + body + "\n"))
+            anchors.append({"kind": k, "anchor": "%s::%s#println(%d)" % (mod, rec.args[0], n_pr), "origin": rec.origin})
         elif k == "closure":
             f = fn_of(rec)
             cs = closures_in(masked, f)
